@@ -208,4 +208,65 @@ def showLine (p : NPoint) : Bytes :=
 def NPoint.row (p : NPoint) : Row :=
   ⟨p.name, sortTags p.tags, p.fields.map NField.field, tsOf p.ts⟩
 
+
+/-! ### lines with string fields -/
+
+/-- a printable field: a non-string field as above, or a string field with any body. -/
+inductive SField where
+  | num (key tok : Bytes) (val : FVal)
+  | str (key body : Bytes)
+
+def SField.key : SField → Bytes
+  | .num k _ _ => k
+  | .str k _ => k
+
+def SField.isStr : SField → Bool
+  | .num _ _ _ => false
+  | .str _ _ => true
+
+/-- the value as printed: the token, or the quoted and escaped body. -/
+def SField.valueText : SField → Bytes
+  | .num _ tok _ => tok
+  | .str _ b => quoteStr b
+
+def SField.text (f : SField) : Bytes := escapeTag f.key ++ bEq :: f.valueText
+
+def SField.field : SField → Field
+  | .num k _ v => ⟨k, v⟩
+  | .str k b => ⟨k, .str b⟩
+
+def SField.Ok : SField → Prop
+  | .num k tok v => k ≠ [] ∧ k.length ≤ maxFieldNameLength ∧ (∀ c ∈ k, c ≠ bQuote) ∧ PlainTok tok ∧ parseNum tok = some v
+  | .str k _ => k ≠ [] ∧ k.length ≤ maxFieldNameLength ∧ (∀ c ∈ k, c ≠ bQuote)
+
+instance : (f : SField) → Decidable f.Ok
+  | .num _ _ _ => by unfold SField.Ok; infer_instance
+  | .str _ _ => by unfold SField.Ok; infer_instance
+
+/-- `k=value,k=value,…` -/
+def showSFields : List SField → Bytes
+  | [] => []
+  | [f] => f.text
+  | f :: f' :: fs => f.text ++ bComma :: showSFields (f' :: fs)
+
+/-- a point with fields of every type. -/
+structure SPoint where
+  name : Bytes
+  tags : List Tag
+  fields : List SField
+  ts : Option Nat
+
+def SPoint.Ok (p : SPoint) : Prop :=
+  p.name ≠ [] ∧ p.name.length ≤ maxMeasurementLength ∧ p.name.head? ≠ some bTab ∧ p.name.head? ≠ some 0 ∧
+  (∀ t ∈ p.tags, TagOk t) ∧ p.fields ≠ [] ∧ (∀ f ∈ p.fields, f.Ok) ∧ tsOk p.ts
+
+instance (p : SPoint) : Decidable p.Ok := by unfold SPoint.Ok; infer_instance
+
+def showSLine (p : SPoint) : Bytes :=
+  escapeTag p.name ++ (if p.tags = [] then [] else bComma :: showTagsTail p.tags) ++
+    bSpace :: (showSFields p.fields ++ showTs p.ts)
+
+def SPoint.row (p : SPoint) : Row :=
+  ⟨p.name, sortTags p.tags, p.fields.map SField.field, tsOf p.ts⟩
+
 end OG.C06
